@@ -56,7 +56,12 @@ import (
 	"go.uber.org/zap/zaptest/observer"
 )
 
-const ovWatchdog = 90 * time.Second // expiry = inconclusive
+const (
+	ovWatchdog = 90 * time.Second // expiry = inconclusive
+	ovSteering = 20 * time.Second // waits for "the file dump has begun"; expiry = inconclusive, and the phase stops
+)
+
+var ovGaveUp bool // a wait expired: the rest of the phase is not run
 
 var ovKinds = []string{"a", "aaaa", "cname-a", "mx-extra", "txt", "srv", "ns-glue", "caa"}
 
@@ -202,6 +207,74 @@ func (s *ovState) storeFresh(into *box, n int, rng *rand.Rand) int {
 
 func (s *ovState) fileDumpsLogged() int { return s.b.logs.FilterMessage("cache dumped").Len() }
 
+// dumpSignal tells that a dump to the dump file has begun, however the tree writes the
+// file: the file itself was re-created / replaced, a new entry appeared in its directory
+// (a temporary file to be renamed), or a goroutine is inside the plugin's dump-to-file
+// function coming from `who` (the dump loop resp. Close()).
+type dumpSignal struct {
+	file  string
+	was   os.FileInfo
+	names map[string]bool
+	who   string
+	polls int
+	Seen  map[string]bool
+}
+
+func dirNames(dir string) map[string]bool {
+	m := map[string]bool{}
+	if es, err := os.ReadDir(dir); err == nil {
+		for _, e := range es {
+			m[e.Name()] = true
+		}
+	}
+	return m
+}
+
+func newDumpSignal(file, who string) *dumpSignal {
+	g := &dumpSignal{file: file, who: who, names: dirNames(filepath.Dir(file)), Seen: map[string]bool{}}
+	g.was, _ = os.Stat(file)
+	return g
+}
+
+// inDumpCache reports whether a goroutine with `who` in its stack is inside dumpCache.
+func inDumpCache(who string) bool {
+	buf := make([]byte, 4<<20)
+	buf = buf[:runtime.Stack(buf, true)]
+	for _, g := range strings.Split(string(buf), "\n\n") {
+		if strings.Contains(g, "cache.(*Cache).dumpCache(") && strings.Contains(g, who) {
+			return true
+		}
+	}
+	return false
+}
+
+func (g *dumpSignal) begun() bool {
+	if fileChanged(g.file, g.was) {
+		g.Seen["dump file re-created or replaced"] = true
+		rep.SetAdd("overlap_dump_begun_signals_seen", "dump file re-created or replaced")
+		return true
+	}
+	for n := range dirNames(filepath.Dir(g.file)) {
+		if !g.names[n] {
+			g.Seen["new file in the dump directory"] = true
+			rep.SetAdd("overlap_dump_begun_signals_seen", "new file in the dump directory")
+			return true
+		}
+	}
+	g.polls++
+	if g.polls%4 == 0 && inDumpCache(g.who) { // stops the world: not on every poll
+		g.Seen["goroutine inside dumpCache"] = true
+		rep.SetAdd("overlap_dump_begun_signals_seen", "goroutine inside dumpCache")
+		return true
+	}
+	return false
+}
+
+const (
+	fromLoop  = "(*Cache).startDumpLoop"
+	fromClose = "cache.(*Cache).Close("
+)
+
 // fileChanged reports whether the dump file is no longer what it was.
 func fileChanged(path string, was os.FileInfo) bool {
 	fi, err := os.Stat(path)
@@ -215,11 +288,16 @@ func fileChanged(path string, was os.FileInfo) bool {
 }
 
 func (s *ovState) waitFor(what string, cond func() bool) bool {
+	return s.waitForT(what, ovWatchdog, cond)
+}
+
+func (s *ovState) waitForT(what string, limit time.Duration, cond func() bool) bool {
 	t0 := time.Now()
 	for !cond() {
-		if time.Since(t0) > ovWatchdog {
-			rep.Inconclusive("overlap phase: %s did not happen within %v", what, ovWatchdog)
+		if time.Since(t0) > limit {
+			rep.Inconclusive("overlap phase: %s did not happen within %v", what, limit)
 			s.gaveUp = true
+			ovGaveUp = true
 			return false
 		}
 		time.Sleep(300 * time.Microsecond)
@@ -346,13 +424,17 @@ func clip(b []byte) []byte {
 
 // round runs one round. kind: api | periodic | close.
 func (s *ovState) round(n int, kind string, k, l int) {
-	if s.gaveUp {
+	if s.gaveUp || ovGaveUp {
 		return
 	}
 	rng := rand.New(rand.NewSource(s.rng.Int63()))
 	caselog.Log(map[string]any{"phase": "overlap", "round": n, "kind": kind})
 	before := s.fileDumpsLogged()
-	was, _ := os.Stat(s.file)
+	who := fromLoop
+	if kind == "close" {
+		who = fromClose
+	}
+	sig := newDumpSignal(s.file, who)
 	if kind == "periodic" {
 		// arm the periodic dump: it runs at the next tick once >= 1024 keys were updated
 		s.storeFresh(s.b, 1100, rng)
@@ -405,13 +487,13 @@ func (s *ovState) round(n int, kind string, k, l int) {
 			wg.Wait()
 			return
 		}
-		early := fileChanged(s.file, was) // the tick came before the leader was in place
+		early := sig.begun() // the tick came before the leader was in place
 		fileDump = mk(kind + "-file")
 		if kind == "close" {
 			go func() { s.b.close(); close(closeDone) }()
 			s.closed = true
 		}
-		if !s.waitFor("re-creation of the dump file by the "+kind+" dump", func() bool { return fileChanged(s.file, was) }) {
+		if !s.waitForT("the beginning of the "+kind+" dump (dump file re-created, new file in its directory, or a goroutine inside dumpCache)", ovSteering, sig.begun) {
 			close(leader.gate)
 			wg.Wait()
 			return
@@ -556,13 +638,13 @@ func dumpCacheFrames() int {
 // the one DumpFile. Judged: the file a restart would read. Ends the cache.
 func (s *ovState) fileFileRound(n int) {
 	const kind = "file-file"
-	if s.gaveUp {
+	if s.gaveUp || ovGaveUp {
 		return
 	}
 	rng := rand.New(rand.NewSource(s.rng.Int63()))
 	caselog.Log(map[string]any{"phase": "overlap", "round": n, "kind": kind})
 	before := s.fileDumpsLogged()
-	was, _ := os.Stat(s.file)
+	sig := newDumpSignal(s.file, fromLoop)
 	s.storeFresh(s.b, 1100, rng) // arms the periodic dump for the next tick
 	B := s.lone(n, kind, "before")
 	if B == nil {
@@ -587,8 +669,8 @@ func (s *ovState) fileFileRound(n int) {
 		bail()
 		return
 	}
-	early := fileChanged(s.file, was) // the tick came before the leader held its shard
-	if !s.waitFor("re-creation of the dump file by the periodic dump", func() bool { return fileChanged(s.file, was) }) {
+	early := sig.begun() // the tick came before the leader held its shard
+	if !s.waitForT("the beginning of the periodic dump (dump file re-created, new file in its directory, or a goroutine inside dumpCache)", ovSteering, sig.begun) {
 		bail()
 		return
 	}
@@ -696,6 +778,7 @@ func (s *ovState) shut() {
 
 func runOverlapPhase() {
 	t0 := time.Now()
+	ovGaveUp = false
 	caches := rep.Pick(1, 3)
 	for ci := 0; ci < caches; ci++ {
 		s := newOvState(strconv.Itoa(ci), rep.Seed^0x0f19^int64(ci)<<20)
@@ -713,7 +796,7 @@ func runOverlapPhase() {
 		}
 		s.round(n, "close", 2+s.rng.Intn(2), 1)
 		s.shut()
-		if s.gaveUp {
+		if s.gaveUp || ovGaveUp {
 			break
 		}
 	}
@@ -725,7 +808,7 @@ func runOverlapPhase() {
 		}
 		s.fileFileRound(1000 + ci)
 		s.shut()
-		if s.gaveUp {
+		if s.gaveUp || ovGaveUp {
 			break
 		}
 	}
